@@ -327,6 +327,11 @@ class RowParser:
         data_rekeyed = {}
         for k, v in data.items():
             k = self.model.header_name_to_field_name_with_context(k, data)
+            if k in data_rekeyed and v == "":
+                # Several headers may denote the same field (`webhook.body` and
+                # `message_text` in a call_webhook row): a blank cell does not
+                # overwrite what another of them says.
+                continue
             data_rekeyed[k] = v
         data = data_rekeyed
 
